@@ -47,7 +47,7 @@ pub struct State {
     pub committed: Option<(u64, u64)>,
     /// (index, term, payload hash)
     pub entries: Vec<(u64, u64, u64)>,
-    pub peers: Vec<u64>,
+    pub peers: Vec<(u64, String)>,
     /// how many ops of this incarnation were acknowledged
     pub acked: u64,
 }
@@ -58,6 +58,30 @@ fn payload(seed: u64, index: u64, term: u64, size: u64) -> Vec<u8> {
         x = x.wrapping_mul(6364136223846793005).wrapping_add(1442695040888963407);
         (x >> 33) as u8
     }).collect()
+}
+
+/// The real persistence functions of the peer address book (cut out of octopii/src/openraft/node.rs by build.rs).
+mod peerbook {
+    #![allow(dead_code)]
+    use crate::error::Result;
+    use crate::wal::WriteAheadLog;
+    use bytes::Bytes;
+    use serde::{Deserialize, Serialize};
+    use std::collections::HashMap;
+    use std::net::SocketAddr;
+    use std::sync::Arc;
+    include!(concat!(env!("OUT_DIR"), "/peer_addr.rs"));
+    pub async fn load(wal: &Arc<WriteAheadLog>) -> HashMap<u64, SocketAddr> {
+        load_peer_addr_records(wal).await
+    }
+    pub async fn record(wal: &Arc<WriteAheadLog>, peer: u64, addr: SocketAddr) -> bool {
+        append_peer_addr_record(wal, peer, addr).await.is_ok()
+    }
+}
+
+/// (peer id, address) of the n-th address record: a handful of peers whose addresses change over time
+fn peer_of(id: u64) -> (u64, std::net::SocketAddr) {
+    (1 + id % 3, format!("10.0.{}.{}:6000", id / 250, 1 + id % 250).parse().unwrap())
 }
 
 fn hash(b: &[u8]) -> u64 {
@@ -161,13 +185,9 @@ pub fn run_child(plan_path: &str, inc_idx: usize) -> i32 {
                 state.entries.push((e.log_id.index, e.log_id.leader_id.term, h));
             }
         }
-        if let Ok(recs) = peers.read_all().await {
-            for r in recs {
-                if r.len() >= 8 {
-                    state.peers.push(u64::from_le_bytes(r[..8].try_into().unwrap()));
-                }
-            }
-        }
+        let mut book: Vec<(u64, String)> = peerbook::load(&peers).await.into_iter().map(|(k, v)| (k, v.to_string())).collect();
+        book.sort();
+        state.peers = book;
         // first line of output: the state after reopen (written before any further op, so a kill cannot lose it)
         println!("{}", serde_json::to_string(&state).unwrap());
         use std::io::Write;
@@ -186,9 +206,8 @@ pub fn run_child(plan_path: &str, inc_idx: usize) -> i32 {
                 Op::SaveVote { term, node, committed } => store.save_vote(&Vote { leader_id: LeaderId { term: *term, node_id: *node }, committed: *committed }).await.is_ok(),
                 Op::SaveCommitted { term, index } => store.save_committed(index.map(|i| LogId::new(*term, 1, i))).await.is_ok(),
                 Op::PeerRecord { id } => {
-                    let mut b = id.to_le_bytes().to_vec();
-                    b.extend_from_slice(format!("10.0.0.{}:6000", id).as_bytes());
-                    peers.append(Bytes::from(b)).await.is_ok()
+                    let (peer, addr) = peer_of(*id);
+                    peerbook::record(&peers, peer, addr).await
                 }
             };
             if ok {
@@ -216,7 +235,7 @@ pub struct Model {
     pub vote: Option<(u64, u64, bool)>,
     pub committed: Option<(u64, u64)>,
     pub purged: Option<(u64, u64)>,
-    pub peers: Vec<u64>,
+    pub peers: BTreeMap<u64, String>,
 }
 
 impl Model {
@@ -242,7 +261,10 @@ impl Model {
             }
             Op::SaveVote { term, node, committed } => self.vote = Some((*term, *node, *committed)),
             Op::SaveCommitted { term, index } => self.committed = index.map(|i| (*term, i)),
-            Op::PeerRecord { id } => self.peers.push(*id),
+            Op::PeerRecord { id } => {
+                let (peer, addr) = peer_of(*id);
+                self.peers.insert(peer, addr.to_string());
+            }
         }
     }
 
@@ -255,7 +277,7 @@ impl Model {
             vote: self.vote,
             committed: self.committed,
             entries: self.log.iter().map(|(i, (t, h))| (*i, *t, *h)).collect(),
-            peers: self.peers.clone(),
+            peers: self.peers.iter().map(|(k, v)| (*k, v.clone())).collect(),
             acked: 0,
         }
     }
